@@ -24,7 +24,8 @@ EXPLANATION = (
     " (R11) backtrack_search returns zero (only below the floor) or the alpha whose trial point has just passed the membership test - no untested exit."
     " (R12) nonnegative-cone ratio test: component i limits the step iff its direction is < 0 exactly (no tolerance, no <=), by -z_i/dz_i; same for s."
     " (R13) the quadratic root of the second-order cone step length is formed without cancellation (t = -b - sqrt(d) iff b >= 0)."
-    ' R11 also: zero is returned only after at least one trial point failed the membership test (the requested step itself is always tried).')
+    ' R11 also: zero is returned only after at least one trial point failed the membership test (the requested step itself is always tried).'
+    ' R10 also: the tail of the second-order cone is measured with the Euclidean norm.')
 ASSUMPTIONS = [
     'rustc MIR construction and trait resolution are correct',
     'alpha_max >= 0; 0 <= linesearch_backtrack_step <= 1 (settings are not validated by the crate)',
